@@ -64,7 +64,7 @@ def model_expect(oracle_line, mode):
     t = oracle_line.split(" ")
     err = " ".join(t[0:5])
     if t[5] == "untouched":
-        return err, "same", (SENTINEL if mode == "s" else ZERO)
+        return err, "same", (SENTINEL if mode.startswith("s") else ZERO)
     if t[5] == "decoded":
         return err, None, " ".join(t[6:10])
     return err, None, None
@@ -135,6 +135,8 @@ class Gen:
                         if a == e and mode == "s":
                             continue   # a reused, pre-filled response value is outside the property
                         self.x("pairs", e, a, c, "6f6f7073", "2.300", "137.201.1.301", mode)
+                if a in (e, ERRMSG):
+                    self.x("pairs", e, a, 101, "6f6f7073", "2.300", "137.201.1.301", "zP")
         # 3. nested FieldError / ParameterError shapes: every present/absent pattern to depth 4, deeper chains
         reps = 12 if self.thorough else 3
         shapes = [(tf, d, m) for tf in (0, 1) for d in range(5) for m in range(1 << d)]
@@ -146,9 +148,17 @@ class Gen:
                 e = rnd.choice([t for t in st if t != ERRMSG])
                 fe, pe = self.fe(tf), self.pe(d, m)
                 desc = rnd.choice(["-", "78", "6e6573746564206572726f72"])
+                # order of the two optional sub-parameters: FieldError first (LLRP layout) and ParameterError first (the
+                # decoder accepts both), at the top level (P) and inside every ParameterError (I) — wherever it changes the bytes
+                orders = [""]
+                if tf and d >= 1:
+                    orders.append("P")
+                if d >= 2 and m & ((1 << (d - 1)) - 1):
+                    orders += [o + "I" for o in orders]
                 for a in (e, ERRMSG):
                     for c in (0, rnd.choice([100, 101, 200, 201, 300, 401]), rnd.randrange(1, 65536)):
-                        self.x("shapes", e, a, c, desc, fe, pe)
+                        for o in orders:
+                            self.x("shapes" if not o else "shapes-order-" + o, e, a, c, desc, fe, pe, "z" + o)
         # 4. descriptions: empty / long / non-ASCII / not even UTF-8 (a Go string is bytes)
         descs = [b"", b"A", b"invalid value in field 3", b"x" * 255, b"y" * 256, b"z" * 257, b"w" * 1000,
                  bytes(range(32, 127)), "é".encode(), "日本語の説明".encode(),
@@ -165,6 +175,43 @@ class Gen:
         self.x("descriptions", 30, 30, 402, hexs(b"m" * (65527 - 8 - 16)), "1.2", "3.4.5.6")
         self.x("descriptions", 30, ERRMSG, 402, hexs(b"m" * (65527 - 8 - 16)), "1.2", "3.4.5.6")
         return self.groups
+
+    def build_concurrent(self):
+        """k = 2..4 SendFor calls in flight on one Client, replies written back to back in one write:
+        (perm, gomaxprocs, [(exp, act, code, desc, fe, pe, mode), ...])"""
+        rnd, st = self.rnd, [t for t in self.stypes if t != ERRMSG]
+        rounds = []
+        n = 1500 if self.thorough else 320
+        for r in range(n):
+            k = 2 + r % 3
+            pure = r % 5 < 2          # same-length replies: only the status code differs
+            codes = [0, rnd.choice([100, 101, 201, 300, 401, rnd.randrange(1, 65536)])] + \
+                    [rnd.choice([0, rnd.randrange(1, 65536)]) for _ in range(k - 2)]
+            rnd.shuffle(codes)
+            cases = []
+            for i in range(k):
+                e = rnd.choice(st)
+                if e == 56 and pure:
+                    e = 30                # GetSupportedVersionResponse has two extra bytes
+                x = rnd.random()
+                a = e if (pure or x < 0.8) else (ERRMSG if x < 0.93 else rnd.choice([t for t in REPLY_TYPES if t not in (e, ERRMSG)]))
+                if pure:
+                    d, f, p, o = "-", "-", "-", ""
+                else:
+                    d = rnd.choice(["-", "%02x" % (65 + i), bytes(rnd.randrange(32, 127) for _ in range(rnd.choice([3, 20, 300]))).hex()])
+                    f = self.fe(rnd.randrange(2))
+                    dep = rnd.choice([0, 0, 1, 2, 3])
+                    p = self.pe(dep, rnd.getrandbits(dep) if dep else 0)
+                    o = rnd.choice(["", "P", "I", "PI"])
+                cases.append((e, a, codes[i], d, f, p, "z" + o))
+            perm = list(range(k))
+            if r % 3 == 1:
+                perm.reverse()
+            elif r % 3 == 2:
+                rnd.shuffle(perm)
+            rounds.append(("".join(map(str, perm)), 1 if r % 4 else 0, cases))
+        rounds.sort(key=lambda x: -x[1])      # GOMAXPROCS is switched once
+        return rounds
 
     def build_unsolicited(self):
         """a reader-initiated frame (KeepAlive / ROAccessReport / ReaderEventNotification) that carries the id of the
@@ -218,10 +265,13 @@ def run(tier, seed, replay=None):
         rp = json.load(open(replay))
         groups = [("replay", c[0], c[1], c[2], c[2] + 1, c[3], c[4], c[5], c[6]) for c in rp.get("cases", []) if len(c) == 7]
         unsol = [tuple(c[:7]) for c in rp.get("cases", []) if len(c) == 8 and c[7] == "u"]
+        # the concurrent scenario depends on scheduling: a replayed round is repeated
+        conc = [(c[1], c[2], [tuple(x) for x in c[3]]) for c in rp.get("cases", []) if len(c) == 4 and c[0] == "c"] * 60
     else:
         gen = Gen(seed, thorough, stypes)
         groups = gen.build()
         unsol = gen.build_unsolicited()
+        conc = gen.build_concurrent()
 
     fails = {}            # signature -> [count, text, found_input, [cases]]
     dist, evals, nontriv = {}, 0, 0
@@ -265,8 +315,8 @@ def run(tier, seed, replay=None):
                 rkeys.add((e, a, d, f, p))
                 nontriv += (hi - lo) - (1 if (lo == 0 and a == e) else 0)
                 codes_full += hi - lo
-            elif (e, a, d, f, p) not in rkeys and (e, a, lo, d, f, p) not in xset:
-                xset.add((e, a, lo, d, f, p))
+            elif (mode[1:] or (e, a, d, f, p) not in rkeys) and (e, a, lo, d, f, p, mode[1:]) not in xset:
+                xset.add((e, a, lo, d, f, p, mode[1:]))
                 if lo != 0 or a != e:
                     nontriv += 1
             dist[kind + ":" + br] = dist.get(kind + ":" + br, 0) + hi - lo
@@ -357,25 +407,90 @@ def run(tier, seed, replay=None):
                              "handed to SendFor as the reply; SendFor reported a type mismatch and left the response untouched, which is "
                              "all C12 asks of it (mis-delivery itself is C03's subject)" % unsol_seen["delivered-as-reply"])
 
+    # several requests outstanding on one Client, replies back to back: every caller must get its own reply's outcome
+    conc_seen = dict(rounds=0, callers=0, gomaxprocs1_rounds=0)
+    if conc:
+        greq, oreq = [], []
+        for perm, gmp, cases in conc:
+            greq.append("c %s %d %d " % (perm, gmp, len(cases)) + " ".join("%d %d %d %s %s %s %s" % c for c in cases))
+            oreq += ["x %d %d %d %s %s %s" % c[:6] for c in cases]
+        rc, gl, glog = vlib.run_harness(exe, "TestVerifC12", "\n".join(greq) + "\n", timeout=900, tag="c")
+        orc, oout = vlib.run_oracle("c12", "\n".join(oreq) + "\n", timeout=600)
+        ol = oout.split("\n")
+        if rc != 0 or len(gl) != len(conc) or orc != 0 or len(ol) < len(oreq):
+            res.violation("harness-run", "Go harness / oracle failed on the concurrent scenario (rc=%s/%s, %d of %d answers): %s" % (
+                rc, orc, len(gl), len(conc), glog[-1500:]), dict(kind="harness", log=glog[-3000:]), False)
+            return res.finish()
+        oi = 0
+        conc_keys = set()
+        for (perm, gmp, cases), g in zip(conc, gl):
+            answers = g.split(" | ")
+            rcase = ["c", perm, gmp, [list(c) for c in cases]]
+            conc_seen["rounds"] += 1
+            conc_seen["gomaxprocs1_rounds"] += 1 if gmp == 1 else 0
+            dist["concurrent:k=%d" % len(cases)] = dist.get("concurrent:k=%d" % len(cases), 0) + 1
+            if len(answers) != len(cases):
+                fail("harness-answer", "unexpected harness answer: " + g[:200], False, rcase, g[:300], "")
+                oi += len(cases)
+                continue
+            if (perm, tuple(cases)) not in conc_keys:
+                conc_keys.add((perm, tuple(cases)))
+                nontriv += 1
+            if len([x for x in samples if x.get("scenario") == "concurrent"]) < 2 and len(g) < 600:
+                samples.append(dict(scenario="concurrent", reply_order=perm, gomaxprocs=gmp or "default",
+                                    callers=[dict(expected_type=c[0], reply_type=c[1], status="%d %s %s %s" % c[2:6], order=c[6][1:]) for c in cases],
+                                    go=answers, model=ol[oi:oi + len(cases)]))
+            for i, (c, ans) in enumerate(zip(cases, answers)):
+                e, a, code, d, f, p, mode = c
+                o = ol[oi]
+                oi += 1
+                evals += 1
+                conc_seen["callers"] += 1
+                gt = ans.split(" ")
+                scripted = "%d %s %s %s" % (code, d, f, p)
+                what = "%d SendFor calls in flight, replies written in order %s; caller %d expecting type %d got a reply of type %d with status [%s]" % (
+                    len(cases), perm, i, e, a, scripted[:200])
+                if len(gt) != 10:
+                    fail("harness-answer", "unexpected harness answer: " + ans[:200], False, rcase, g[:600], o[:300])
+                    continue
+                if gt[0] == "skipped":
+                    fail("harness-skipped", "exchanges not run because earlier ones timed out or panicked", False, rcase, g[:600], o[:300])
+                    continue
+                bad = prop_check(e, a, code, scripted, gt)
+                if bad:
+                    fam = bad[0].split(":")[0]
+                    sig = "wrong-status-under-concurrency" if fam in ("nonzero-status-not-error", "status-not-exposed", "success-reported-as-error",
+                                                                      "errmsg-not-error") else "concurrent:" + bad[0]
+                    fail(sig, what + ": " + bad[1] + "; the caller got [%s]; all callers: [%s]" % (ans[:200], g[:600]), True, rcase, g[:600], o[:300])
+                    continue
+                merr, msame, min_ = model_expect(o, mode)
+                if " ".join(gt[0:5]) != merr or (msame and gt[5] != msame) or (min_ and " ".join(gt[6:10]) != min_):
+                    fail("model-differs:concurrent", what + ": Go [%s] differs from the model [%s] where the property does not constrain it" % (
+                        ans[:300], o[:300]), False, rcase, g[:600], o[:300])
+
     for sig, (cnt, text, found, cases, g, o) in sorted(fails.items()):
         res.violation(sig, text + (" (%d such cases)" % cnt if cnt > 1 else ""),
                       dict(kind="input" if found else "correspondence", correspondence="C12/SendFor-vs-send_for_outcome",
                            cases=cases, observed=g, model=o, failing_cases=cnt,
                            case_format="[expected type, reply type, status code, description hex, FieldError idx.code, "
                                        "ParameterError levels ptype.code[.idx.code] outermost first, response prefill z|s]; with an 8th element 'u' the "
-                                       "second entry is the type of a reader-initiated frame sent with the request's id before the real reply"),
+                                       "second entry is the type of a reader-initiated frame sent with the request's id before the real reply; "
+                                       "['c', reply order, GOMAXPROCS (0 = default), [caller cases]] = that many SendFor calls in flight, replies in one write; "
+                                       "letters after z|s: P/I = ParameterError before FieldError at the top level / inside ParameterError"),
                       found)
 
     res.coverage.update(
         evaluations=evals, distinct_nontrivial=nontriv,
         rule="one case = one real Client.SendFor exchange on net.Pipe: (expected type, reply type, status code, description, "
              "FieldError, ParameterError chain); distinct by that tuple; non-trivial iff status != 0 or reply type != expected type; "
-             "plus exchanges in which a reader-initiated frame (61/62/63) with the request's id precedes the real reply (all non-trivial)",
+             "plus exchanges in which a reader-initiated frame (61/62/63) with the request's id precedes the real reply (all non-trivial); "
+             "plus rounds of 2..4 concurrent SendFor calls whose replies arrive in one TCP write (evaluations counts callers, "
+             "distinct_nontrivial counts distinct rounds); both sub-parameter orders count as distinct cases",
         samples=samples, input_distribution=dist, traces_validated_against_impl=evals,
         status_codes_enumerated="all 65536 codes on %d (expected, reply) type combinations (%d exchanges); 300 stratified codes on the others%s"
                                 % (len(rkeys), codes_full, "" if not thorough else " (none: thorough enumerates every status type)"),
         exhaustive=bool(thorough), exhaustive_note="thorough: 65536 codes x 19 status-bearing types x {expected, ERROR_MESSAGE}; "
                                                    "descriptions and nested shapes are sampled (unbounded space; covered by the proof)",
-        reader_initiated_frames=unsol_seen, type_pairs=len(seen_pairs), status_types=stypes, max_nested_depth=seen_depth, max_description_bytes=seen_desc_len,
+        reader_initiated_frames=unsol_seen, concurrent=conc_seen, type_pairs=len(seen_pairs), status_types=stypes, max_nested_depth=seen_depth, max_description_bytes=seen_desc_len,
         trusted_base=res.assumptions)
     return res.finish()
